@@ -42,7 +42,8 @@ def judge(ctx, name, tr, decimals, acc):
         e2 = ev[f["i"] - 1]
         e1 = ev[f["i"] - 2] if f["mon"] == "RoundTrip" else e2
         prof = [x["profit"] for x in rts if x["i"] == f["i"]]
-        ctx.report(classify(e1, e2, f["mon"]),
+        dr10 = {d.get("i") for d in drifts}
+        ctx.report(dict(classify(e1, e2, f["mon"]), conforms=not (f["i"] in dr10 or (f["i"] - 1) in dr10)),
                    {"driver": "h-model c10 replay", "decimals": decimals, "cases": [case_of(e1)], "source": name,
                     "profit_usd": prof[0] if prof else None, "open": e1, "close": e2})
     return ev
